@@ -11,6 +11,13 @@
 // ValidateEthereumSignature: it recovers the signer of every stored signature
 // with go-ethereum's SigToPub over the item's CURRENT signing bytes and compares
 // with what the ghost recorded as registered by that validator when it signed.
+// Step oracle (wrapper `step`): when an item's signing bytes change across a
+// transition its signature set must be empty afterwards.
+//
+// Four scenarios (operations restricted to one item + the global ones, then all
+// items), each from the set-up state and from a seeded state one end-block away
+// from the estimate election. Development aids (never oracles): C06_DUMP,
+// C06_DEPTH, C06_SCENARIO, C06_PROF, C06_HEAP.
 package main
 
 import (
@@ -157,7 +164,6 @@ func addrOf(k *ecdsa.PrivateKey) string { return ethcrypto.PubkeyToAddress(k.Pub
 
 func run(r *report.Run, shard, nshards int, replayFile string) {
 	debug.SetGCPercent(200)
-	debug.SetMemoryLimit(1400 << 20) // soft: the collector works harder near it, nothing fails
 	w := world.New(world.Config{Stakes: world.StakesOf(1_000_000, 1_000_000, 1_000_000), Users: []string{"adm", "U1"}, Height: 101})
 	ctx := w.Root
 	must(w.StdChain(ctx, ref))
@@ -345,6 +351,11 @@ func run(r *report.Run, shard, nshards int, replayFile string) {
 		if os.Getenv("C06_DUMP") != "" {
 			fmt.Fprintf(os.Stderr, "shard %d scenario %s: depth %d/%d states %d transitions %d in %.1fs\n", shard, spec.Name, out.DepthCompleted, spec.MaxDepth, r.States-s0, r.Transitions-t0n, time.Since(t0).Seconds())
 		}
+		if hf := os.Getenv("C06_HEAP"); hf != "" && shard == 0 {
+			f, _ := os.Create(hf + "." + spec.Name)
+			_ = pprof.WriteHeapProfile(f)
+			f.Close()
+		}
 		e.txmemo = map[string]sdk.Tx{}
 	}
 }
@@ -524,10 +535,7 @@ func (e *env) recoverAddr(bts, sig []byte, lenient bool) string {
 		}
 		digest := ethcrypto.Keccak256(append([]byte(ethPrefix), bts...))
 		if pub, err := ethcrypto.SigToPub(digest, s); err == nil {
-			// SigToPub recovers; VerifySignature confirms (rejects malleable / malformed r,s)
-			if ethcrypto.VerifySignature(ethcrypto.FromECDSAPub(pub), digest, s[:64]) {
-				a = ethcrypto.PubkeyToAddress(*pub).Hex()
-			}
+			a = ethcrypto.PubkeyToAddress(*pub).Hex()
 		}
 	}
 	if len(e.recov) > 200_000 {
